@@ -44,13 +44,26 @@ var rR25 = RuleRef{Name: "R25", Doc: "aliasing keys: two distinct arguments may 
 				k := canon(a.Key)
 				switch a.Method {
 				case "Set", "SetIfNotExist", "SetIfExist":
-					s["S|"+k] = true
+					// only a value moved over from another key matters for (i): deleting that source key afterwards
+					// removes the moved value when both names are the same key
+					if len(ci.Call.Args) >= 3 {
+						src, _ := c.originKeys(ci.Call.Args[2])
+						for _, sk := range src {
+							if sk != k {
+								s["S|"+k+"|from|"+sk] = true
+							}
+						}
+					}
 					delete(s, "D|"+k) // re-created
 				case "Delete":
 					if collect {
 						for f := range s {
-							if strings.HasPrefix(f, "S|") && f[2:] != k && !s["NE|"+k+"|"+f[2:]] && !s["NE|"+f[2:]+"|"+k] {
-								bad = append(bad, fmt.Sprintf("%s: db.Delete(%s) after db.Set(%s): if both arguments name the same key the value just written is removed", c.pos(ci.Pos()), k, f[2:]))
+							if !strings.HasPrefix(f, "S|") {
+								continue
+							}
+							parts := strings.Split(f[2:], "|from|")
+							if len(parts) == 2 && parts[1] == k && parts[0] != k && !s["NE|"+k+"|"+parts[0]] && !s["NE|"+parts[0]+"|"+k] {
+								bad = append(bad, fmt.Sprintf("%s: db.Delete(%s) after its value was stored under %s: if both arguments name the same key the value just moved is removed", c.pos(ci.Pos()), k, parts[0]))
 							}
 						}
 					}
